@@ -47,6 +47,17 @@ let dump (r : BinNums.coq_N range) : string =
   Buffer.add_string b (String.concat "," (List.map cell (cells r)));
   Buffer.add_string b "]U[";
   Buffer.add_string b (String.concat "," (List.map cell (used_cells d0 teqb r)));
+  Buffer.add_string b "]D[";
+  (* double-ended consumption of an iterator over the list l: front, back, front, ... *)
+  let alternate l =
+    let a = Array.of_list l in
+    let lo = ref 0 and hi = ref (Array.length a - 1) and front = ref true and out = ref [] in
+    while !lo <= !hi do
+      (if !front then (out := a.(!lo) :: !out; incr lo) else (out := a.(!hi) :: !out; decr hi));
+      front := not !front
+    done;
+    List.rev !out in
+  Buffer.add_string b (String.concat "," (List.map cell (alternate (cells r)) @ ["|"] @ List.map cell (alternate (used_cells d0 teqb r))));
   Buffer.add_string b "]G[";
   let hi = int_of_n h and wi = int_of_n w in
   let probes = List.concat_map (fun i -> List.map (fun j ->
